@@ -41,6 +41,13 @@ CLAIMS.update({
             NOTE_PY + "; _on_trait_change(remove=True) detaching its handler is assumed (C16 level); the convergence argument (recursion depth <= 2 through the lock) and sync_trait's registration branch are not yet under contract; GC timing replaced by 'recorded partners are alive'", "6 C20"),
 })
 
+CLAIMS.update({
+    "C11": ("Name computation of deferred traits, for all prefix strings: Delegate.__init__ classifies the prefix style and stores what the compiled handlers need; the four delegate_attr_name_* C handlers and _trait_delegate compute delegate_target(name, prefix, class prefix) (z3 strings); lemma listener-pattern=target: the real get_delegate_pattern and _trait_delegate_name, executed on the metadata Delegate.__init__ really stores, yield ' delegate:target' for every prefix style -- the Python listener watches the attribute the C code reads.",
+            NOTE_PY + " / " + NOTE_C + "; read/write routing (getattr_delegate / setattr_delegate chain walk) and the listener install/remove functions are not yet under contract", "6 C11"),
+    "C13": ("Compiled lookup and policies: has_traits_setattro / has_traits_getattro dispatch exactly once to the handler of the governing trait -- instance trait, else class trait, else the prefix trait, which is consulted only when neither exists (getattro: after the stored-value fast path and the plain Python lookup) -- with the right arguments; setattr_disallow / setattr_constant always refuse with TraitError, getattr_disallow / getattr_event with AttributeError, storing nothing; setattr_readonly writes iff no default is declared and no value other than Undefined is stored (exactly one defining assignment), refuses deletion.",
+            NOTE_C + "; __prefix_trait__ (longest-prefix search, Python), add_trait/remove_trait and the class-dictionary cache coherence are not yet under contract", "6 C13"),
+})
+
 NOT_YET = "not claimed yet: the contracts for this property are still being built (plan in DESIGN.md section 6); no other technique is substituted"
 
 
@@ -51,7 +58,7 @@ def main():
         checks.append(dict(
             property_id=pid, quick_cmd="./check %s --tier quick" % pid, thorough_cmd="./check %s --tier thorough" % pid,
             evidence_file="/verif/evidence/%s.json" % pid, replay_cmd_template="./check %s --replay {path}" % pid,
-            engine="cvc+pyvc" if pid in ("C01", "C02", "C03", "C10", "C14", "C18", "C19") else "pyvc", level_claimed=dict(category="proof", text=text, design_ref=ref), level_note=note, technique=TECH))
+            engine="cvc+pyvc" if pid in ("C01", "C02", "C03", "C10", "C11", "C13", "C14", "C18", "C19") else "pyvc", level_claimed=dict(category="proof", text=text, design_ref=ref), level_note=note, technique=TECH))
     man = dict(
         version=1,
         setup_cmd="python3-vt -m compileall -q /verif/vc /verif/contracts /verif/spec /verif/replay",
